@@ -15,7 +15,7 @@ func init() {
 	register(&Rule{ID: "VF-17", Title: "lookups are bounded by the snapshot's current indexes, not by construction-time copies",
 		Props: []string{"C05"}, Floor: 2, Run: runVF17})
 	register(&Rule{ID: "VF-18", Title: "the verifier's running checksum follows every mutation of the wrapped log",
-		Props: []string{"C16"}, Floor: 2, Run: runVF18})
+		Props: []string{"C16", "C17"}, Floor: 2, Run: runVF18})
 	register(&Rule{ID: "VF-10", Title: "the empty-log sentinel 0 is guarded before unsigned subtraction and before it becomes a GetLog index",
 		Props: []string{"C19", "C20"}, Floor: 3, Run: runVF10})
 }
